@@ -33,7 +33,7 @@ func GenOps(r *vh.Rng, n int, w Weights, hostile int) []Op {
 		switch kind {
 		case "create":
 			op.PC = passClass(r, hostile)
-			op.SeedKind = r.PickS("fresh", "fresh", "fresh", "fresh", "dup", "short", "empty")
+			op.SeedKind = r.PickS("fresh", "fresh", "fresh", "fresh", "dup", "short", "empty", "revive", "revive")
 			op.Remark = RandRemark(r)
 		case "next":
 			op.N = r.Range(1, 5)
